@@ -13,6 +13,7 @@ require (
 	example.com/a/foo v0.0.0
 	example.com/b/foo v0.0.0
 	example.com/c20/lib v0.0.0
+	example.com/c20bundle v0.0.0
 )
 
 require (
@@ -37,3 +38,6 @@ replace example.com/a/foo => ./fake/c20afoo
 replace example.com/b/foo => ./fake/c20bfoo
 
 replace example.com/c20/lib => ./fake/c20lib
+
+// rule bundle whose groups have Import() sets of their own (C20)
+replace example.com/c20bundle => ./fake/c20bundle
